@@ -4,7 +4,7 @@ From Coq Require Import String.
 From Coq Require Import List NArith ZArith Bool Lia.
 From VRL Require Import Base.Bytes Base.Value Base.Lit Model.ConvRes Model.IntText Model.Ip Model.Entries
   Model.Flatten Model.UnixTs Model.TsText
-  Proofs.IntTextProofs Proofs.IpProofs Proofs.Ip6Proofs Proofs.EntriesProofs Proofs.UnixTsProofs Proofs.FlattenProofs Proofs.TsTextProofs.
+  Proofs.IntTextProofs Proofs.IpProofs Proofs.Ip6Proofs Proofs.Ip4CanonProofs Proofs.EntriesProofs Proofs.UnixTsProofs Proofs.FlattenProofs Proofs.TsTextProofs.
 (* no statement below uses it: required only so that building this file also rebuilds the correspondence
    glue against the same compiled models *)
 From VRL Require Corr.C25.
@@ -52,7 +52,20 @@ Theorem C25_aton_ntoa : forall a b c d,
 Proof. exact aton_ntoa_roundtrip. Qed.
 Print Assumptions C25_aton_ntoa.
 
+(* ... and every text ip_aton accepts at all (Ipv4Addr::from_str takes no leading zeros, so an accepted text is
+   the canonical one) comes back from ip_ntoa *)
+Theorem C25_aton_ntoa_accepted : forall s n,
+  ip_aton (VBytes s) = ROk (VInt n) -> ip_ntoa (VInt n) = ROk (VBytes s).
+Proof. exact aton_ntoa_accepted. Qed.
+Print Assumptions C25_aton_ntoa_accepted.
+
 (* ---------------- ip_ntop / ip_pton ---------------- *)
+
+(* text -> bytes -> text on every IPv4 text ip_pton accepts (an IPv6 text need not be canonical: "0:0::1") *)
+Theorem C25_pton_ntop_accepted_v4 : forall s b,
+  ip_pton (VBytes s) = ROk (VBytes b) -> length b = 4%nat -> ip_ntop (VBytes b) = ROk (VBytes s).
+Proof. exact pton_ntop_accepted_v4. Qed.
+Print Assumptions C25_pton_ntop_accepted_v4.
 
 Theorem C25_ntop_pton_v4 : forall b,
   length b = 4%nat -> wf_bytes b = true ->
@@ -84,6 +97,13 @@ Theorem C25_ipv4_mapped : forall a b c d,
   ip_to_ipv6 (VBytes s4) = ROk (VBytes (mapped_text s4)) /\ ipv6_to_ipv4 (VBytes (mapped_text s4)) = ROk (VBytes s4).
 Proof. exact mapped_roundtrip. Qed.
 Print Assumptions C25_ipv4_mapped.
+
+(* every text that parses as an IPv4 address *)
+Theorem C25_to6_to4_accepted : forall s o,
+  parse_ip s = Some (V4 o) ->
+  exists t, ip_to_ipv6 (VBytes s) = ROk (VBytes t) /\ ipv6_to_ipv4 (VBytes t) = ROk (VBytes s).
+Proof. exact to6_to4_accepted. Qed.
+Print Assumptions C25_to6_to4_accepted.
 
 (* ---------------- to_entries / from_entries ---------------- *)
 
